@@ -85,6 +85,11 @@ FIRST = {
     'h04-C11': 'caught (S1 no-cross: position 1 feeds node_data); S1 payload-only-from-state also reported the harmless `if (t[2].is_none()) node_data = py::none()` -> accepted when the test is on the field\'s own position',
     'h05-C12': 'idiom alarm only (D4 wanted the mode test on paths where the class is neither dict nor defaultdict) -> D4 follows the class tests; new rule G9 (no memo of lookup answers survives a registration: one-key invalidation of a memo, or a write to a registry member on the lookup path)',
     'h06-C14': 'missed -> new rule A8 (std::move only takes what the call owns: never a C++ object inside a Python object, a non-const reference parameter, a member of *this)',
+    'i01-C01': 'caught (M7: the OrderedDict arm enumerates through PyDict_Next), next to M1 / M3 / K3 / N1 / D2 reports about the new helper with out-parameters, whose shape the arm walker does not follow',
+    'i03-C03': 'caught', 'i05-C05': 'caught', 'i06-C06': 'caught', 'i09-C09': 'caught', 'i10-C10': 'caught', 'i18-C18': 'caught',
+    'i02-C02': 'missed by C02 (L6 reported the thread_local memo in Lookup under C03 / C05 / C16 / C17) -> L6 and G9 now also decide C02, L6 also C12',
+    'i13-C13': 'caught (D1 restore-on-every-path), but D1 would also have reported the harmless `if prev != mode:` guard -> D1 excuses the edges on which the saved flag equals the requested mode and adds switch-on-every-path; the seed is still reported because its second test (`is_dict_insertion_ordered(namespace) == mode`) skips the restore',
+    'i20-C20': 'missed -> R4 every-dtype-takes-part (the n-ary promotion gets the whole tuple of recorded dtypes; a fold promotes on every iteration)',
     'g09-C09': 'caught', 'g10-C10': 'caught', 'g13-C13': 'caught', 'g18-C18': 'caught', 'g20-C20': 'caught',
     'g05-C05': 'analysis error only (five of the six edits are behaviour-preserving; F2 did not know the form) -> F2 reads `<leaves> if r is tree else treespec.flatten_up_to(r)` and reports the one that hands out `paths`',
     'c03-C03': 'missed by C03 (D2 reported it under C02 / C13) -> D2 now also decides C03',
